@@ -196,6 +196,9 @@ def mk_nested_src(b, nm):
 for _holder, _hs, _hget in (("group", hs_group, lambda b: b.groups["G"]), ("tag", hs_tag, lambda b: b.tags["T"]),
                             ("multi_tag", hs_mtag, lambda b: b.multi_tags["M"]), ("data_array", hs_da, lambda b: b.data_arrays["D"])):
     KINDS["%s.sources@nested" % _holder] = link_kind(_hs, _hget, "sources", lambda b: b.sources["S"].sources, mk_nested_src)
+KINDS["source.sources@8"] = mk_owned(setup_src(8), parent_src(8), "sources", mk_src)
+KINDS["section.sections@8"] = mk_owned(setup_sec(8), parent_sec(8), "sections", lambda p, n: p.create_section(n, "t"))
+KINDS["section.props@8"] = mk_owned(setup_sec(8), parent_sec(8), "props", lambda p, n: p.create_property(n, [1]))
 DEEP_KINDS = ["file.blocks", "block.data_arrays", "section.sections@1"]
 
 
@@ -282,21 +285,29 @@ def cases(tier):
         if KINDS[kind]["link"] or kind in AB_KINDS:
             out.append({"kind": kind, "names": N12, "ops": big, "hp": "AAA", "single": True})
     out.append({"kind": "dims11", "names": [], "ops": [], "hp": None})
+    # names that are NOT short: 255 / 256 / 300 / 5 000 characters (the last two differ only in their last character)
+    NLONG = ["x" * 255, "y" * 256, "z" * 299 + "a", "z" * 299 + "b", "w" * 4999 + "1", "w" * 4999 + "2"]
+    longh = [["create", i] for i in range(6)] + [["create", 3], ["delete", 2, "name"], ["reopen"], ["delete", 3, "name"], ["create", 2]]
+    for kind in KINDS:
+        if "@2" not in kind and "@3" not in kind:
+            out.append({"kind": kind, "names": NLONG, "ops": longh, "hp": None, "single": True})
     # containers with more members than any page / batch size one might think of (130, thorough 300)
     NBIG = 130 if tier == "quick" else 300
     NH = ["m%03d" % i for i in range(NBIG)]
     huge = [["create", i] for i in range(NBIG)] + [["delete", 128, "name"], ["delete", 64, "id"], ["reopen"], ["create", 128], ["delete", 0, "idx"]]
     for kind in KINDS:
-        if not KINDS[kind]["link"] and "@2" not in kind and "@3" not in kind:
+        if not KINDS[kind]["link"] and "@2" not in kind and "@3" not in kind and "@8" not in kind:
             out.append({"kind": kind, "names": NH, "ops": huge, "hp": None, "check_from": NBIG - 1, "single": True})
     for kind in ("group.data_arrays", "tag.references", "data_array.sources@nested", "group.sources"):
         out.append({"kind": kind, "names": NH, "ops": huge, "hp": None, "check_from": NBIG - 1, "single": True})
     for kind in KINDS:
         ab = KINDS[kind]["link"] or kind in AB_KINDS
         if tier == "quick":
-            add(kind, NAMES_Q, 3, [None] + (["AB", "AAA"] if ab else []))
+            add(kind, NAMES_Q, 2 if "@8" in kind else 3, [None] + (["AB", "AAA"] if ab else []))
             if kind in DEEP_KINDS:
                 add(kind, N4, 4, [None], minlen=4)
+        elif "@8" in kind:
+            add(kind, NAMES_Q, 3, [None])
         else:
             add(kind, NAMES_T, 3, [None])
             add(kind, N4, 4, [None], minlen=4)
